@@ -60,7 +60,7 @@ class KDTwoRandomCrop(KDRandomCrop):
         w, h = get_image_size(img)
         th, tw = self.size
 
-        if h + 1 < th or w + 1 < tw:
+        if h < th or w < tw:
             raise ValueError(f"Required crop size {(th, tw)} is larger then input image size {(h, w)}")
 
         if w == tw and h == th:
